@@ -142,6 +142,18 @@ def isOperator (n : Node) : Bool :=
   (n.binding != 0 && n.led != Led.none) || (n.children.length = 1 &&
     ["not", "let", "kindmatch", "scopematch", "statematch", "priority", "suppresses"].contains n.name)
 
+/-- ppIsProductChain (fixes/C08-product-chain-brackets): the operators of the given binding on the left spine of
+    `n` — printed without brackets — are products and quotients only -/
+def isProductChainF : Nat → Node → Nat → Bool
+  | 0, _, _ => true
+  | f+1, n, binding =>
+    if n.children.length != 2 || n.led = Led.none || n.binding != binding then true
+    else (n.name = "times" || n.name = "div") &&
+      (match n.children with | some l :: _ => isProductChainF f l binding | _ => true)
+
+/-- (fuel = a bound on the depth of the tree; the driver's trees are far smaller) -/
+def isProductChain (n : Node) (binding : Nat) : Bool := isProductChainF 100000 n binding
+
 /-- ppNeedsBrackets(parent, child, childIndex): does the printed child need parentheses to be parsed
     again into the same position under its parent? (with fix e9f68ea: `let` and the sink attributes count
     as prefix operators) -/
@@ -153,7 +165,8 @@ def needsBrackets (parent child : Node) (childIndex : Nat) : Bool :=
     decide (child.binding ≤ parent.binding + 20)
   else if child.children.length = 1 then                           -- prefix operator under an infix operator
     decide (parent.binding > child.binding + 20)
-  else if parent.name = "times" && (child.name = "times" || child.name = "div") then false
+  else if parent.name = "times" && (child.name = "times" || child.name = "div") &&
+      isProductChain child parent.binding then false
   else decide (parent.binding > child.binding) || (parent.binding = child.binding && childIndex > 0)
 
 def indentNames : List String := ["statements", "map", "list", "kindmatch", "statematch", "scopematch", "priority", "suppresses"]
